@@ -39,6 +39,11 @@ HARNESSES = {
         "bound": "every date 1970..2200, every step 0..=31 days",
         "what": "shim/chrono.rs [K]: `t - Days::new(k)` has day number - k",
     },
+    "chrono_weekday_try_from_u8": {
+        "src": "chrono_weekday.rs", "tier": "K", "timeout": 600, "repo_files": [],
+        "bound": "every u8 (loop-free)",
+        "what": "contracts/calendars.vx [K]: chrono's Weekday::try_from(u8) is Ok(Mon..Sun) for 0..=6 and Err otherwise (the week-mask conversion of Cal::new)",
+    },
     "row_swap_swaps_exactly_two_rows": {
         "src": "linalg_swaps.rs", "tier": "Kb", "timeout": 1200, "repo_files": ["rust/dual/linalg/linalg_dual.rs", "rust/dual/linalg/mod.rs"],
         "bound": "3x3 arrays of arbitrary i32, every j < k < 3",
